@@ -200,9 +200,33 @@ func sortedVals(m map[string]string) []string {
 
 // callees of fn within the unit (for ordering)
 func (u *g2lUnit) order(p *g2lPkg) []string {
+	// a helper the listed functions call (same package, not abstract, not listed) is pulled in automatically, so that a
+	// refactoring that merely extracts a helper keeps the unit translatable (the tie proofs notice the change; the
+	// regenerated code can still be run against the implementation)
 	in := map[string]bool{}
 	for _, n := range u.fns {
 		in[n] = true
+	}
+	for i := 0; i < len(u.fns); i++ {
+		fd := p.decls[u.fns[i]]
+		if fd == nil {
+			continue
+		}
+		ast.Inspect(fd.Body, func(x ast.Node) bool {
+			c, ok := x.(*ast.CallExpr)
+			if !ok {
+				return true
+			}
+			if id, ok := c.Fun.(*ast.Ident); ok {
+				if _, isFn := p.info.Uses[id].(*types.Func); isFn && !in[id.Name] && p.decls[id.Name] != nil && u.absFuncs[id.Name] == "" {
+					if _, other := g2l.fns[u.pkgDir+"."+id.Name]; !other {
+						in[id.Name] = true
+						u.fns = append(u.fns, id.Name)
+					}
+				}
+			}
+			return true
+		})
 	}
 	deps := map[string][]string{}
 	for _, n := range u.fns {
